@@ -98,15 +98,22 @@ def errStr : Err → String
   | .refWidth => "refWidth" | .refBounds => "refBounds" | .refDims => "refDims"
   | .negToken => "negToken"
 
-/-- case: {utts: [...], calls: [null | k, ...]}: the calls are made one after the other on the same
-directory. Reply: {"steps": [{ok, err, disk, wf_before, documented_before, tokens_nonneg_before,
-repaired, wf_repaired}]}: `disk` is the model's directory after the call; `repaired`/`wf_repaired`
-are the spec: the documented repairs applied to the directory before the call, and whether that is
-well-formed. The driver refuses to answer (machinery error) if model and spec disagree where
+/-- case: {utts: [...], calls: [null | k, ...], impl_disks?: [dir after call i as the implementation
+left it]}: the calls are made one after the other on the same directory.
+Reply: {"steps": [{ok, err, disk, wf_before, documented_before, tokens_nonneg_before}],
+"oracle": [{expected, expected_wf, after_wf}]}.
+`steps` is the model (`run`) on its own evolving directory. `oracle` is the spec evaluated on the
+IMPLEMENTATION's directories: `expected` = documented repairs applied to what the implementation had
+on disk before call i, `expected_wf` = whether that is well-formed (⇔ the call must return normally),
+`after_wf` = whether what the implementation left on disk is well-formed.
+The driver refuses to answer (machinery error) if model and spec disagree where
 `C12_validate_iff` says they cannot. -/
 def c12History : Handler := fun c => do
   let utts ← getList parseUtt c "utts"
   let calls ← getList (jsonToOption jsonToNat) c "calls"
+  let implDisks ← match fieldOpt c "impl_disks" with
+    | none => pure []
+    | some v => jsonToList (jsonToList parseUtt) v
   let mut disk : Dir := utts
   let mut steps : Array Json := #[]
   for fix in calls do
@@ -122,11 +129,18 @@ def c12History : Handler := fun c => do
       ("disk", dirJ after),
       ("wf_before", boolJ (decide (WellFormed disk))),
       ("documented_before", boolJ (decide (Documented disk))),
-      ("tokens_nonneg_before", boolJ (decide (TokensNonneg disk))),
-      ("repaired", dirJ rep),
-      ("wf_repaired", boolJ wfRep)])
+      ("tokens_nonneg_before", boolJ (decide (TokensNonneg disk)))])
     disk := after
-  pure (objJ [("steps", Json.arr steps)])
+  let mut oracle : Array Json := #[]
+  let mut before : Dir := utts
+  for (fix, after) in calls.zip implDisks do
+    let exp := repair fix before
+    oracle := oracle.push (objJ [
+      ("expected", dirJ exp),
+      ("expected_wf", boolJ (decide (WellFormed exp))),
+      ("after_wf", boolJ (decide (WellFormed after)))])
+    before := after
+  pure (objJ [("steps", Json.arr steps), ("oracle", Json.arr oracle)])
 
 def parseSeq (j : Json) : Except String Seq := do
   match fieldOpt j "s1" with
@@ -149,28 +163,43 @@ def c12SosEos : Handler := fun c => do
   pure (objJ [("loaded", seqJ l), ("written", seqJ (writeHyp sos eos l)),
               ("pinned_loaded", optJ seqJ (loadRefPinned to sos eos r))])
 
+/-- case: {hyp: seq, sos, eos}. Reply: {written}. -/
+def c12WriteHyp : Handler := fun c => do
+  let h ← field c "hyp" >>= parseSeq
+  let sos ← getOptInt c "sos"
+  let eos ← getOptInt c "eos"
+  pure (objJ [("written", seqJ (writeHyp sos eos h))])
+
 def infoJ (i : List (String × Int)) : Json := objJ (i.map fun (k, v) => (k, intJ v))
 
-/-- case: {utts, mode: "info" | "strict" | "fix", fix: k (for mode fix)}: the command
+/-- case: {utts, mode: "info" | "strict" | "fix", fix: k (for mode fix), impl_disk?}: the command
 `get-torch-spect-data-dir-info [--strict | --fix k]`.
-Reply: {ok, err, disk, report (model, one pass), recount (spec, of `disk`)}. -/
+Reply: {ok, err, disk, report (model, one pass), recount (spec, of `disk`), expected, expected_wf,
+impl_recount (spec, of what the implementation left on disk)}. -/
 def c12Info : Handler := fun c => do
   let utts ← getList parseUtt c "utts"
   let mode ← getStr c "mode"
   let k ← getOptNat c "fix"
-  let (validate, fix) ← match mode with
+  let (strict, fix) ← match mode with
     | "info" => pure (false, none)
     | "strict" => pure (true, none)
-    | "fix" => pure (true, some (k.getD 1))
+    | "fix" => pure (false, some (k.getD 1))
     | _ => throw s!"bad mode {mode}"
-  let (after, res) := infoRun validate fix utts
+  let (after, res) := infoCmd strict fix utts
+  let implDisk ← match fieldOpt c "impl_disk" with
+    | none => pure none
+    | some v => some <$> jsonToList parseUtt v
+  let exp := repair fix utts
+  let common := [("disk", dirJ after), ("expected", dirJ exp),
+    ("expected_wf", boolJ (decide (WellFormed exp))),
+    ("impl_recount", optJ (fun d => infoJ (recount d)) implDisk)]
   match res with
   | .error e =>
-    pure (objJ [("ok", boolJ false), ("err", strJ (infoErrStr e)), ("disk", dirJ after)])
+    pure (objJ ([("ok", boolJ false), ("err", strJ (infoErrStr e))] ++ common))
   | .ok acc =>
-    pure (objJ [("ok", boolJ true), ("err", Json.null), ("disk", dirJ after),
+    pure (objJ ([("ok", boolJ true), ("err", Json.null),
                 ("report", infoJ (report utts.length acc)),
-                ("recount", infoJ (recount after))])
+                ("recount", infoJ (recount after))] ++ common))
 where
   infoErrStr : InfoErr → String
     | .val e => errStr e
@@ -178,4 +207,5 @@ where
     | .unpack => "unpack"
 
 def main : IO Unit := Proto.run [("c12.history", c12History), ("c12.sos_eos", c12SosEos),
+  ("c12.write_hyp", c12WriteHyp),
   ("c12.info", c12Info)]
